@@ -16,7 +16,7 @@ func c16Run(c *runner.Ctx) {
 	var w *gen.World
 	var err error
 	shape := "random"
-	if c.Idx == 0 || (c.Tier == "thorough" && c.Idx < 10) {
+	if c.Idx%200 == 0 {
 		shape = "jumbo"
 		w, err = gen.GenWorld(c.R, c.TmpDir, fmt.Sprintf("w%d", c.Idx), gen.WorldOpts{Jumbo: true})
 	} else {
@@ -103,7 +103,7 @@ func init() {
 		Rule: "cases = worlds (built, loaded, merged, merge-of-merge segments, one jumbo world); one evaluation per (segment, field) incl. two unknown field names: CollectionStats == specification (TotalDocumentCount=Count, DocumentCount = docs carrying the field for built/loaded-built, surviving docs with >=1 term for merged origin, SumTotalTermFrequency = sum of frequencies), zero for unknown fields, Merge adds component-wise; " +
 			"non-trivial = segment with a field whose SumTotalTermFrequency exceeds its DocumentCount (frequencies >1 or several terms per doc); distinct by the expected statistics text",
 		Assumptions: InputContract,
-		Phases:      []runner.Phase{{Name: "stats", Cases: cases(200, 5000), Run: c16Run}},
+		Phases:      []runner.Phase{{Name: "stats", Cases: cases(2000, 50000), Run: c16Run}},
 		Floors: func(string) map[string]int64 {
 			return map[string]int64{"segments_merged_origin": 200, "segments.built": 100}
 		},
